@@ -165,12 +165,55 @@ let run_tracechk cid t =
     (b2s (dests_in_rangeb (nat_of_int p) prog))
     (String.concat " " (List.mapi (fun r e -> b2s (trace_ok (nat_of_int p) prog (nat_of_int r) e)) evs))
 
+
+(* cid pstruct what <ParLit A> [<ParLit B>]   what: transpose | add | subtract | conv k op..   (C07, distributed part)
+   output per rank: fr nr fc nc ON <rows> OFF <rows> CM <cols>, a row = "len (col val)*" in storage order *)
+let rows_str rows =
+  String.concat " " (List.map (fun r -> String.concat " " (string_of_int (List.length r) ::
+    List.map (fun (c, v) -> string_of_int (int_of_nat c) ^ " " ^ q_str v) r)) rows)
+let rs_str (rs : qc rank_state) =
+  Printf.sprintf "%d %d %d %d ON %d %s OFF %d %s CM %d %s"
+    (int_of_nat rs.rs_fr) (int_of_nat rs.rs_nr) (int_of_nat rs.rs_fc) (int_of_nat rs.rs_nc)
+    (List.length rs.rs_on.csr_rows) (rows_str rs.rs_on.csr_rows)
+    (List.length rs.rs_off.csr_rows) (rows_str rs.rs_off.csr_rows)
+    (List.length rs.rs_colmap) (str_ints (ints_of_nats rs.rs_colmap))
+type anyrank = RCsr of qc rank_state | RCoo of qc rank_coo | RCsc of qc rank_csc
+let conv_step (r : anyrank) (op : string) : anyrank =
+  match r, op with
+  | RCsr x, "to_coo" -> RCoo (q_par_csr_to_coo x) | RCsr x, "to_csc" -> RCsc (q_par_csr_to_csc x)
+  | RCsr x, ("to_csr" | "copy") -> RCsr (q_par_csr_to_csr x)
+  | RCoo x, "to_csr" -> RCsr (q_par_coo_to_csr x) | RCoo x, "to_csc" -> RCsc (q_par_coo_to_csc x)
+  | RCoo x, ("to_coo" | "copy") -> RCoo (q_par_coo_to_coo x)
+  | RCsc x, "to_csr" -> RCsr (q_par_csc_to_csr x) | RCsc x, "to_coo" -> RCoo (q_par_csc_to_coo x)
+  | RCsc x, ("to_csc" | "copy") -> RCsc (q_par_csc_to_csc x)
+  | _, o -> failwith ("conv op " ^ o)
+let run_pstruct cid t =
+  let what = next t in
+  let ops = if what = "conv" then (let k = next_int t in take k (fun () -> next t)) else [] in
+  let (_, _, _, frows, fcols, trip) = read_parlit t in
+  let st = q_assemble_all trip (nats frows) (nats fcols) in
+  let res = match what with
+    | "transpose" ->
+      let colmaps = List.map (fun rs -> rs.rs_colmap) st in
+      let w = build_world (nats fcols) colmaps (fun _ r -> r) in
+      List.mapi (fun q _ -> q_par_transpose w st (nat_of_int q)) st
+    | "add" | "subtract" ->
+      let (_, _, _, frows2, fcols2, trip2) = read_parlit t in
+      let st2 = q_assemble_all trip2 (nats frows2) (nats fcols2) in
+      List.map2 (fun a b -> q_par_add_local (what = "subtract") a b) st st2
+    | "conv" ->
+      List.map (fun rs ->
+          match List.fold_left conv_step (RCsr rs) (ops @ ["to_csr"]) with RCsr x -> x | _ -> failwith "conv end") st
+    | k -> failwith ("pstruct " ^ k) in
+  pr_ranks cid "S" rs_str res
+
 let run_case cid t =
   match next t with
   | "tracechk" -> run_tracechk cid t
   | "commchk" -> run_commchk cid t
   | "tapchk" -> run_tapchk cid t
   | "pspmv" -> run_pspmv cid t
+  | "pstruct" -> run_pstruct cid t
   | op -> Printf.printf "%s UNSUPPORTED %s\n" cid op
 
 let () =
